@@ -131,11 +131,13 @@ def _provenance(chk, repo, ci, init):
     if formA:
         if [_norm(d.value) for d in D.get("sigma", [])] != [f"np.linalg.norm({Y})/SNR"]:
             p2.append("noise std is not ||exact data|| / SNR")
-        if [_norm(d.value) for d in D.get("sigma2", [])] not in (["sigma*sigma"], ["sigma**2"]):
+        # the data distribution with the variance temporary replaced by its definition: Gaussian(model, sigma*sigma)
+        ydist = [v.replace(" ", "") for v in assigned_values(repo, ci, init, "y", stop=frozenset({Y, X, "sigma", "model", "x"}))]
+        accepted = {f"cuqi.distribution.Gaussian({m_},{v_})" for m_ in ("model", "model(x)") for v_ in ("sigma*sigma", "sigma**2")}
+        if len(ydist) == 1 and ydist[0].startswith("cuqi.distribution.Gaussian(model") and ydist[0] not in accepted:
             p2.append("likelihood variance is not sigma squared")
-        ydist = [_norm(d.value) for d in D.get("y", [])]
-        if ydist not in (["cuqi.distribution.Gaussian(model(x),sigma2)"], ["cuqi.distribution.Gaussian(model,sigma2)"]):
-            problems.append(f"data distribution is {ydist}, not Gaussian(model, sigma2) on the model that produced the exact data")
+        elif len(ydist) != 1 or ydist[0] not in accepted:
+            problems.append(f"data distribution is {ydist}, not Gaussian(model, sigma**2) on the model that produced the exact data")
         if _norm(sup) != "super().__init__(y,x,y=data)":
             problems.append(f"BayesianProblem is initialised with `{unparse(sup)}`, not (y, x, y=data)")
         xd = [_norm(d.value) for d in D.get("x", [])]
@@ -331,9 +333,20 @@ SIZE_NAMES = {"PSF_size", "dim", "m", "n"}
 
 def _r6(chk, repo):
     """Abstract evaluation (sa/parity.py: N = 2k + p, affine forms in k per parity case) of every integer sample grid of the PSF builders."""
-    from ..parity import evaluate, Aff, Range
+    from .common import best_of, canon_fn
     for fname in PSF_BUILDERS:
-        fn = repo.func(f"{TP}:{fname}")
+        src = repo.func(f"{TP}:{fname}")
+
+        def cands(_src=src):
+            yield _src
+            from ..canon import set_parents
+            yield set_parents(canon_fn(repo, None, _src, 2, rel=TP))       # module-level private helpers (shared grid builders) inlined
+        best_of(chk, cands(), lambda t, v, _f=fname: _r6_on(t, repo, _f, v))
+
+
+def _r6_on(chk, repo, fname, fn):
+    from ..parity import evaluate, Aff, Range
+    if True:
         # single-definition locals are inlined
         defs = {}
         for s in ast.walk(fn):
